@@ -1,1 +1,31 @@
-(* placeholder *)
+(* C07 - a failure on one connection or request never takes the server down.
+   ONLY statements.  The model is the labelled transition system of Sys.v:
+   every interleaving of the Run thread, any number of Stop calls, connection
+   goroutines, per-request goroutines (with arbitrary handler scripts) and the
+   environment (clients, barriers, slow OnClose).  [reachable cfg s]: s is the
+   result of some label sequence from the initial state.  The boolean fields
+   of [cfg] are the places where the pinned and the current tree differ;
+   [fixed_cfg] is the current tree (validated behaviourally on every run by the
+   scenario correspondence), [pinned_cfg] the tree before the fix commits. *)
+From G Require Import Base Sys SysProofs SysProps.
+Open Scope nat_scope.
+
+Theorem C07_alive : forall cfg s, recovery cfg = true -> handler_rec cfg = true -> reachable cfg s -> alive s = true.
+Proof. exact alive_reachable. Qed.
+Print Assumptions C07_alive.
+
+Theorem C07_bystanders : forall cfg s l s' i, step cfg s l = Some s' ->
+  (l = LConn i \/ exists r, l = LHandler i r) -> forall j, j <> i -> nth_error (conns s') j = nth_error (conns s) j.
+Proof. exact c06_other_conns. Qed.
+Print Assumptions C07_bystanders.
+
+Theorem C07_accepting : forall cfg s, ready_on_error cfg = false -> reachable cfg s -> alive s = true ->
+  ready s = true -> stops s = [] -> accept_failed s = false -> step cfg s EConnect <> None.
+Proof. exact c17_connect_succeeds. Qed.
+Print Assumptions C07_accepting.
+
+Theorem C07_pinned_refuted : exists s, run_labels pinned_cfg init
+              [ECallRun true true; LRun; LRun; EConnect; LRun; LRun; LConn 0; LConn 0;
+               ESend 0 (IReq KNormal [HPanic]); LConn 0; LHandler 0 1] = Some s /\ alive s = false.
+Proof. exact alive_pinned_refuted. Qed.
+Print Assumptions C07_pinned_refuted.
